@@ -91,7 +91,7 @@ impl Property for P {
     }
     fn cases(tier: Tier) -> u64 {
         match tier {
-            Tier::Quick => 4_000,
+            Tier::Quick => 20_000,
             Tier::Thorough => 120_000,
         }
     }
